@@ -330,3 +330,10 @@ impl RegexMatchHandler {
         });
     }
 }
+
+#[cfg(regexml_verif)]
+impl Drop for AnalyzeIter<'_> {
+    fn drop(&mut self) {
+        crate::verif::log("drop_it", format!("\"it\":{}", self.verif_id));
+    }
+}
